@@ -40,6 +40,9 @@ pub uninterp spec fn spec_upper_name(b: Seq<u8>) -> Seq<char>;
 /// `String::from_utf8_lossy(bytes).to_uppercase()` (RXPR site)
 #[verifier::external_body]
 pub fn verif_upper_name(bytes: &Arc<Vec<u8>>) -> (r: String) ensures r@ == spec_upper_name(bytes@), { unimplemented!() }
+/// `e.to_string()` on the crate's error type (Display; RCALL site)
+#[verifier::external_body]
+pub fn verif_err_to_string(e: FerrousError) -> String { unimplemented!() }
 /// `String == &str` (R7 site, by reference)
 #[verifier::external_body]
 pub fn verif_string_eq(a: &String, b: &&str) -> (r: bool) ensures r == (a@ == b@), { unimplemented!() }
@@ -47,6 +50,11 @@ pub fn verif_string_eq(a: &String, b: &&str) -> (r: bool) ensures r == (a@ == b@
 /// `a == b` on ConnectionState (#[derive(PartialEq)], dropped by R4; R7 operator site, by reference)
 #[verifier::external_body]
 pub fn verif_state_eq(a: &ConnectionState, b: &ConnectionState) -> (r: bool) ensures r == (*a == *b), { unimplemented!() }
+/// the frame is a SYNC / PSYNC command (as process_connection decodes the name: lossy UTF-8, upper-cased)
+pub open spec fn sync_frame(frame: RespFrame) -> bool {
+    frame matches RespFrame::Array(Some(parts)) && parts@.len() > 0 && (parts@[0] matches RespFrame::BulkString(Some(b))
+        && (spec_upper_name(b@) == "SYNC"@ || spec_upper_name(b@) == "PSYNC"@))
+}
 pub open spec fn gate_closed(s: Server, conn_id: u64) -> bool {
     s.config.password is Some && s.connections.map@.contains_key(conn_id) && s.connections.map@[conn_id].state != ConnectionState::Authenticated
 }
@@ -70,6 +78,7 @@ impl Server {
 
 //@@ unit conn_frame_step loopbody src/network/server.rs Server::process_connection "for frame in frames_to_process"
 //@@   rewrite R3
+//@@   rewrite? RCALL to_string "e" verif_err_to_string
 //@@   opt same-return-type
 //@@   tail Ok(true)
 //@@   rewrite RXPR "String::from_utf8_lossy(bytes).to_uppercase()" "verif_upper_name(bytes)"
@@ -84,6 +93,10 @@ impl Server {
             gate_closed(*old(self), id) ==> forall|i: int| old(self).effects@.len() <= i < final(self).effects@.len() ==> !(#[trigger] final(self).effects@[i] is Sync),
             // every frame is handed to exactly one of the two
             final(self).effects@.len() == old(self).effects@.len() + 1,
+            // C05 / C01: a frame that is not a replication handshake ALWAYS produces exactly one response, appended in order —
+            // also when its handler fails (the failure becomes an error reply; the connection is not dropped)
+            !sync_frame(frame) ==> r is Ok && final(responses)@.len() == old(responses)@.len() + 1
+                && final(responses)@.take(old(responses)@.len() as int) =~= old(responses)@,
 //@@ body
 //@@ end
 }
